@@ -53,6 +53,7 @@ fn pol(p: Pol) -> Policy {
         Pol::Assume => Policy::Assume,
         Pol::Fork => Policy::Fork,
         Pol::ForkNonZero => Policy::ForkNonZero,
+        Pol::ForkAdv => Policy::ForkAdv,
     }
 }
 fn unpol(p: Policy) -> Pol {
@@ -60,6 +61,7 @@ fn unpol(p: Policy) -> Pol {
         Policy::Assume => Pol::Assume,
         Policy::Fork => Pol::Fork,
         Policy::ForkNonZero => Pol::ForkNonZero,
+        Policy::ForkAdv => Pol::ForkAdv,
     }
 }
 
@@ -82,12 +84,14 @@ impl<C: SymBridge> Lab<C> for SymLab<C> {
     fn adv_scalar(&mut self, name: &str) -> Scalar<C> {
         let s = S::var(name);
         self.adv.push(s.0);
+        symcore::with(|c| c.adv_atoms.push(s.0));
         symcore::prefer_pivot(s);
         C::s_in(s)
     }
     fn adv_element(&mut self, name: &str) -> Element<C> {
         let s = S::var(&format!("dlog({name})"));
         self.adv.push(s.0);
+        symcore::with(|c| c.adv_atoms.push(s.0));
         symcore::prefer_pivot(s);
         symcore::assume_nonzero(s, &format!("{name} is not the identity (decoding rejects the identity)"));
         C::e_in(E::from_dlog(s))
@@ -137,7 +141,11 @@ impl<C: SymBridge> Lab<C> for SymLab<C> {
         match rej {
             None => symcore::check(true, &format!("{what}: rejected on structure")),
             Some(d) if d.outcome == Outcome::Infeasible => {
-                symcore::with(|c| c.check(true, &format!("{what}: rejecting comparison refuted by the solver under PC")))
+                let _ = d;
+                symcore::with(|c| {
+                    c.record("EX", what, true, "the rejecting comparison inside the real code was refuted under PC (unit multiple of a non-zero quantity; identity proved by the solver)".into());
+                    true
+                })
             }
             Some(d) => {
                 let (a, b) = (S(d.a), S(d.b));
